@@ -538,7 +538,7 @@ impl BlockReconciliationReadPort for Sim {
             // leader: everything the other leader wrote from `next` on, contiguous; the real
             // adapter may also hand over entries the DB already has when p2p raced.
             let mut start = next;
-            if s.tape.chance(1, 6) {
+            if !s.redis_hist.is_empty() && s.tape.chance(1, 3) {
                 let back = 1 + s.tape.choose(2) as u32;
                 let mut c = next;
                 for _ in 0..back {
